@@ -113,6 +113,8 @@
            (bitwise-and n mask))))
     (define (bytevector-uint-set! bv k n endianness size)
       (unless (positive? size) (error "size must be positive" size))
+      (unless (and (exact-integer? n) (< -1 n (expt 2 (* 8 size))))
+        (error "value out of range" n size))
       (if (eq? endianness 'big)
           (do ((i (- size 1) (- i 1))
                (n n (arithmetic-shift n -8)))
@@ -123,7 +125,14 @@
               ((>= i size))
             (bytevector-u8-set! bv (+ k i) (bitwise-and n #xFF)))))
     (define (bytevector-sint-set! bv k n endianness size)
-      (bytevector-uint-set! bv k (+ (expt 2 (* 8 size)) n) endianness size))
+      (unless (positive? size) (error "size must be positive" size))
+      (unless (and (exact-integer? n)
+                   (<= (- (expt 2 (- (* 8 size) 1)))
+                       n
+                       (- (expt 2 (- (* 8 size) 1)) 1)))
+        (error "value out of range" n size))
+      (bytevector-uint-set! bv k (if (negative? n) (+ (expt 2 (* 8 size)) n) n)
+                            endianness size))
     (define (bytevector->uint-list bv endianness size)
       (unless (positive? size) (error "size must be positive" size))
       (unless (zero? (modulo (bytevector-length bv) size))
